@@ -220,6 +220,11 @@ pub const SOURCES: &[&str] = &[
     "map-key-whole",
     "map-literal-whole",
     "nested-array-whole",
+    // literal-only containers (the parser folds them into one constant) printed whole
+    "const-array-whole",
+    "const-map-whole",
+    "const-map-key-whole",
+    "const-nested-whole",
     "bytes-in-array-whole",
     "tera-context-whole",
     // string-producing built-ins
@@ -432,6 +437,18 @@ pub fn build_source(name: &str, d: &Datum) -> Option<SrcOut> {
         "map-whole" => mk(c_m(), "m", format!("{{\"f\": {q}}}"), Keep::May),
         "map-key-whole" => return only_normal(mk(c_mk(), "mk", format!("{{{q}: \"v\"}}"), Keep::May)),
         "map-literal-whole" => mk(c_d(), "{\"k\": d}", format!("{{\"k\": {q}}}"), Keep::May),
+        "const-array-whole" => {
+            return only_normal(mk(vec![], &format!("[{}, 1]", lit_dq(t)), format!("[{q}, 1]"), Keep::May));
+        }
+        "const-map-whole" => {
+            return only_normal(mk(vec![], &format!("{{\"k\": {}}}", lit_sq(t)), format!("{{\"k\": {q}}}"), Keep::May));
+        }
+        "const-map-key-whole" => {
+            return only_normal(mk(vec![], &format!("{{{}: 1}}", lit_dq(t)), format!("{{{q}: 1}}"), Keep::May));
+        }
+        "const-nested-whole" => {
+            return only_normal(mk(vec![], &format!("{{\"k\": [{}]}}", lit_dq(t)), format!("{{\"k\": [{q}]}}"), Keep::May));
+        }
         "nested-array-whole" => mk(
             vec![("arr", V::Arr(vec![V::Arr(vec![dv.clone()])]))],
             "arr",
